@@ -41,7 +41,7 @@ Proof.
 Qed.
 Lemma chunk_take n s : chunk n s = take n s.
 Proof.
-  unfold chunk, take, len. destruct (N.leb_spec n (N.of_nat (length s))); destruct (N.ltb_spec (N.of_nat (length s)) n); try lia; reflexivity.
+  rewrite take_spec. unfold chunk, len. destruct (N.leb_spec n (N.of_nat (length s))); destruct (N.ltb_spec (N.of_nat (length s)) n); try lia; reflexivity.
 Qed.
 Lemma many_guard {A} (p : list N -> option (A * list N)) n s :
   many p n s = if len s <? n then None else repeat_p p (N.to_nat n) s.
